@@ -14,7 +14,7 @@ RULE = (
     "keep-alive / close x network segmentation x {nothing, stray bytes or a complete second response after the body, a body "
     "after a body-less HEAD/204/304 response, an interim 100 Continue, early EOF inside the body}; per response the caller "
     "behaviour = read all / read k then release / release unread / drain / close / read k then close / stream / ignore / "
-    "read k then ignore / hold (read to the end only just before the last request, so that several connections are in flight). Every body the server sends is TAGGED with the target and serial number of the request it answers, "
+    "read k then ignore / release (or read k and release) while keeping the response object referenced / hold (read to the end only just before the last request, so that several connections are in flight). Every body the server sends is TAGGED with the target and serial number of the request it answers, "
     "stray bytes carry a poison tag, so each delivered byte has a decidable owner. Non-trivial = an earlier response was left "
     "unread / partially read / had stray bytes or a surplus body AND a later request used the pool."
 )
@@ -25,7 +25,7 @@ ASSUMPTIONS = [
 ]
 EXHAUSTIVE = {"quick": False, "thorough": False}
 
-BEHAVIOURS = ["read", "readk-release", "release", "drain", "close", "readk-close", "stream", "ignore", "readk-ignore", "hold"]
+BEHAVIOURS = ["read", "readk-release", "release", "drain", "close", "readk-close", "stream", "ignore", "readk-ignore", "hold", "release-keep", "readk-release-keep"]
 EXTRAS = [None, "stray", "second", "force_body", "pre100", "short"]
 
 
@@ -132,6 +132,12 @@ def run_case(case) -> list[Failure]:
                         keepalive.append(r)
                 elif b == "release":
                     r.release_conn()
+                elif b in ("release-keep", "readk-release-keep"):
+                    # released, but the caller keeps the response object around (e.g. for its headers)
+                    if b.startswith("readk"):
+                        rec["bytes"] += r.read(9)
+                    r.release_conn()
+                    keepalive.append(r)
                 elif b == "drain":
                     r.drain_conn()
                     r.release_conn()
